@@ -368,10 +368,12 @@ package restful
 //@ loop 0 invariant none: forall(0, it_i, func(k int) bool { return strings.ToLower(c.AllowedHeaders[k]) != strings.ToLower(header) && c.AllowedHeaders[k] != "*" })
 
 //@ func ext:(*regexp.Regexp).FindStringSubmatch
-//@ props C09 C17 C19
-//@ trusted A-JSR (structural part): the result is nil or a fresh slice holding the match and its groups
+//@ props C01 C02 C03 C09 C14 C17 C18 C19
+//@ trusted A-JSR (structural part): the result is nil or a fresh slice holding the match and its groups, and it is a function of the expression and the string
 //@ requires self != nil
 //@ ensures result == nil || (fresh(result) && len(result) >= 1)
+//@ ensures det-n: (result == nil) == (rxSubN(self, s) < 0) && (result != nil ==> len(result) == rxSubN(self, s))
+//@ ensures det-at: forall(0, len(result), func(i int) bool { return result[i] == rxSubAt(self, s, i) })
 //@ modifies nothing
 //@ nopanic
 
@@ -812,10 +814,14 @@ package restful
 //@ nopanic
 
 //@ func newPathExpression
-//@ props C04 C11 C14
-//@ trusted A-JSR: compiles the template into a regular expression (regexp is outside the subset)
+//@ props C01 C02 C04 C11 C14 C17 C18
+//@ trusted A-JSR: compiles the template into a regular expression (regexp is outside the subset); bounded stand-in on every run
 //@ ensures result1 == nil ==> result0 != nil && fresh(result0)
 //@ ensures (result1 == nil) == pathCompiles(path)
+// A-JSR on the common fragment: the compiled expression matches exactly the paths the template admits as a prefix
+//@ ensures jsr-admits: jsrFragment(path) ==> result1 == nil && forallProbe(func(p string) bool { return rxMatches(result0.Matcher, p) == jsrAdmits(path, p) })
+//@ opt bounded
+//@ opt pool.path ["", "/", "/a", "/a/", "/a/b", "/{x}", "/a/{x}", "/{x}/b", "/{x}/{y}", "/a/{x}/c", "/v1.0/items/{id}", "/a b/{id}", "/a+b/{id}", "/x+y", "/a.json", "/a(b)/{id}", "/a$/{id}", "/é/{id}", "/a,b;c/{id}", "a", "a/{x}"]
 //@ modifies nothing
 //@ nopanic
 
@@ -1049,10 +1055,15 @@ package restful
 //@ props C05 C16
 //@ requires r != nil && r.protection != nil && ghostInt("lock.ptr", r.protection) >= 0 && registryOK(r)
 //@ ensures found: result1 ==> result0 != nil
+// C16/C05: an exactly registered media type wins; otherwise any registered type that occurs inside the
+// Content-Type value (so parameters and spacing after or around it are tolerated); otherwise nothing
+//@ ensures exact: regHas(r, mime) ==> result1 && result0 == r.accessors[mime]
+//@ ensures contained: result1 && !regHas(r, mime) ==> existsStr(func(k string) bool { return regHas(r, k) && strings.Contains(mime, k) && result0 == r.accessors[k] })
+//@ ensures complete: !result1 ==> forallStr(func(k string) bool { return !(regHas(r, k) && strings.Contains(mime, k)) })
 //@ ensures lock: ghostInt("lock.ptr", r.protection) == old(ghostInt("lock.ptr", r.protection))
 //@ modifies nothing
 //@ nopanic
-//@ loop 0 invariant true
+//@ loop 0 invariant none: forallStr(func(k string) bool { return visited(k) ==> !strings.Contains(mime, k) })
 
 // package variable: the registry exists and holds no nil accessor
 //@ global invariant registry: entityAccessRegistry != nil && entityAccessRegistry.protection != nil && registryOK(entityAccessRegistry)
@@ -1065,3 +1076,118 @@ package restful
 //@ ensures pool-balance: ghostInt("own.acquired", currentCompressorProvider) - ghostIntAtEntry("own.acquired", currentCompressorProvider) == ghostInt("own.released", currentCompressorProvider) - ghostIntAtEntry("own.released", currentCompressorProvider)
 //@ signals pool-balance: ghostInt("own.acquired", currentCompressorProvider) - ghostIntAtEntry("own.acquired", currentCompressorProvider) == ghostInt("own.released", currentCompressorProvider) - ghostIntAtEntry("own.released", currentCompressorProvider)
 //@ callsite iface:EntityReaderWriter.Read reset: old(r.Request.Header.Get("Content-Encoding")) == "gzip" ==> isGzipReaderOnBody(r, old(r.Request.Body))
+
+// ---------------------------------------------------------------------------
+// RouterJSR311 (C01 C02 C03 C14 C17 C18): everything the router does with the
+// results of the regular-expression engine. What the compiled expressions match
+// is A-JSR: rxSubN / rxSubAt are uninterpreted, newPathExpression's contract is
+// validated by a bounded stand-in.
+
+//@ func ext:(*regexp.Regexp).MatchString
+//@ props C01 C03 C18
+//@ trusted A-JSR: MatchString agrees with FindStringSubmatch
+//@ requires self != nil
+//@ ensures result == (rxSubN(self, s) >= 1)
+//@ modifies nothing
+//@ nopanic
+
+//@ func (*sortableRouteCandidates).Less
+//@ props C03 C18
+//@ requires rcs != nil && 0 <= i && i < len(rcs.candidates) && 0 <= j && j < len(rcs.candidates)
+//@ ensures key: result == jsrRouteLess(rcs.candidates[i], rcs.candidates[j])
+//@ nopanic
+//@ modifies nothing
+
+//@ func (*sortableDispatcherCandidates).Less
+//@ props C03 C18
+//@ requires dc != nil && 0 <= i && i < len(dc.candidates) && 0 <= j && j < len(dc.candidates)
+//@ ensures key: result == jsrDispLess(dc.candidates[i], dc.candidates[j])
+//@ nopanic
+//@ modifies nothing
+
+//@ lemma C03.jsr-route-less-swo
+//@ props C03 C18
+//@ forall x routeCandidate, y routeCandidate, z routeCandidate
+//@ ensures irreflexive: !jsrRouteLess(x, x)
+//@ ensures asymmetric: jsrRouteLess(x, y) ==> !jsrRouteLess(y, x)
+//@ ensures transitive: jsrRouteLess(x, y) && jsrRouteLess(y, z) ==> jsrRouteLess(x, z)
+//@ ensures incomparable-transitive: !jsrRouteLess(x, y) && !jsrRouteLess(y, x) && !jsrRouteLess(y, z) && !jsrRouteLess(z, y) ==> !jsrRouteLess(x, z) && !jsrRouteLess(z, x)
+
+//@ lemma C03.jsr-disp-less-swo
+//@ props C03 C18
+//@ forall x dispatcherCandidate, y dispatcherCandidate, z dispatcherCandidate
+//@ ensures irreflexive: !jsrDispLess(x, x)
+//@ ensures asymmetric: jsrDispLess(x, y) ==> !jsrDispLess(y, x)
+//@ ensures transitive: jsrDispLess(x, y) && jsrDispLess(y, z) ==> jsrDispLess(x, z)
+//@ ensures incomparable-transitive: !jsrDispLess(x, y) && !jsrDispLess(y, x) && !jsrDispLess(y, z) && !jsrDispLess(z, y) ==> !jsrDispLess(x, z) && !jsrDispLess(z, x)
+
+//@ func ext:sort.Sort@reverse:*sortableDispatcherCandidates
+//@ props C02 C03 C14 C18
+//@ trusted A-SORT: sort.Sort(sort.Reverse(x)) permutes x and leaves no earlier element Less than a later one
+//@ requires data.(*sortableDispatcherCandidates) != nil
+//@ modifies elems(data.(*sortableDispatcherCandidates).candidates)
+//@ ensures sorted: forall(0, len(data.(*sortableDispatcherCandidates).candidates), func(i int) bool { return forall(i+1, len(data.(*sortableDispatcherCandidates).candidates), func(j int) bool { return !jsrDispLess(data.(*sortableDispatcherCandidates).candidates[i], data.(*sortableDispatcherCandidates).candidates[j]) }) })
+//@ ensures perm1: forall(0, len(data.(*sortableDispatcherCandidates).candidates), func(k int) bool { return exists(0, len(data.(*sortableDispatcherCandidates).candidates), func(m int) bool { return same(data.(*sortableDispatcherCandidates).candidates[k], old(data.(*sortableDispatcherCandidates).candidates[m])) }) })
+//@ ensures perm2: forall(0, len(data.(*sortableDispatcherCandidates).candidates), func(m int) bool { return exists(0, len(data.(*sortableDispatcherCandidates).candidates), func(k int) bool { return same(data.(*sortableDispatcherCandidates).candidates[k], old(data.(*sortableDispatcherCandidates).candidates[m])) }) })
+//@ nopanic
+
+// Step 1 of JSR-311 3.7.2: the WebService whose root expression matches and that no other matching
+// WebService outranks; 404 exactly when none matches.
+//@ func (RouterJSR311).detectDispatcher
+//@ props C02 C03 C14 C18
+//@ requires services: forall(0, len(dispatchers), func(i int) bool { return jsrSvcOK(dispatchers[i]) })
+//@ ensures none: (result2 != nil) == forall(0, len(dispatchers), func(i int) bool { return !jsrSvcHit(dispatchers[i], requestPath) })
+//@ ensures none-nil: result2 != nil ==> result0 == nil
+//@ ensures member: result2 == nil ==> exists(0, len(dispatchers), func(i int) bool { return dispatchers[i] == result0 && jsrSvcHit(dispatchers[i], requestPath) }) && result1 == jsrFinal(result0, requestPath)
+//@ ensures best: result2 == nil ==> forall(0, len(dispatchers), func(j int) bool { return jsrSvcHit(dispatchers[j], requestPath) ==> !jsrDispLess(jsrDispCand(result0, requestPath), jsrDispCand(dispatchers[j], requestPath)) })
+//@ modifies nothing
+//@ nopanic
+//@ loop 0 invariant fresh: filtered != nil && fresh(filtered) && (filtered.candidates == nil || fresh(filtered.candidates))
+//@ loop 0 invariant cands: forall(0, len(filtered.candidates), func(k int) bool { return exists(0, it_i, func(i int) bool { return jsrSvcHit(dispatchers[i], requestPath) && same(filtered.candidates[k], jsrDispCand(dispatchers[i], requestPath)) }) })
+//@ loop 0 invariant complete: forall(0, it_i, func(i int) bool { return jsrSvcHit(dispatchers[i], requestPath) ==> exists(0, len(filtered.candidates), func(k int) bool { return same(filtered.candidates[k], jsrDispCand(dispatchers[i], requestPath)) }) })
+
+//@ func ext:sort.Sort@reverse:*sortableRouteCandidates
+//@ props C01 C03 C14 C18
+//@ trusted A-SORT: sort.Sort(sort.Reverse(x)) permutes x and leaves no earlier element Less than a later one
+//@ requires data.(*sortableRouteCandidates) != nil
+//@ modifies elems(data.(*sortableRouteCandidates).candidates)
+//@ ensures sorted: forall(0, len(data.(*sortableRouteCandidates).candidates), func(i int) bool { return forall(i+1, len(data.(*sortableRouteCandidates).candidates), func(j int) bool { return !jsrRouteLess(data.(*sortableRouteCandidates).candidates[i], data.(*sortableRouteCandidates).candidates[j]) }) })
+//@ ensures perm1: forall(0, len(data.(*sortableRouteCandidates).candidates), func(k int) bool { return exists(0, len(data.(*sortableRouteCandidates).candidates), func(m int) bool { return same(data.(*sortableRouteCandidates).candidates[k], old(data.(*sortableRouteCandidates).candidates[m])) }) })
+//@ ensures perm2: forall(0, len(data.(*sortableRouteCandidates).candidates), func(m int) bool { return exists(0, len(data.(*sortableRouteCandidates).candidates), func(k int) bool { return same(data.(*sortableRouteCandidates).candidates[k], old(data.(*sortableRouteCandidates).candidates[m])) }) })
+//@ nopanic
+
+// Step 2 of JSR-311 3.7.2: exactly the routes whose expression matches the remainder leaving "" or "/",
+// best-ranked first.
+//@ func (RouterJSR311).selectRoutes
+//@ props C01 C03 C14 C18
+//@ requires ws: dispatcher != nil && routesLockOf(dispatcher) >= 0
+//@ requires wf: forall(0, len(dispatcher.routes), func(k int) bool { return jsrRouteOK(dispatcher.routes[k]) })
+//@ ensures sound: forall(0, len(result), func(j int) bool { return exists(0, old(len(dispatcher.routes)), func(k int) bool { return same(result[j], old(dispatcher.routes[k])) && jsrRouteHit(old(dispatcher.routes[k]), pathRemainder) }) })
+//@ ensures complete: forall(0, old(len(dispatcher.routes)), func(k int) bool { return jsrRouteHit(old(dispatcher.routes[k]), pathRemainder) ==> exists(0, len(result), func(j int) bool { return same(result[j], old(dispatcher.routes[k])) }) })
+//@ ensures sorted: forall(0, len(result), func(i int) bool { return forall(i+1, len(result), func(j int) bool { return !jsrRouteLess(jsrRouteCand(result[i], pathRemainder), jsrRouteCand(result[j], pathRemainder)) }) })
+//@ ensures fresh: fresh(result)
+//@ nopanic
+//@ modifies nothing
+//@ loop 0 invariant fresh: filtered != nil && fresh(filtered) && (filtered.candidates == nil || fresh(filtered.candidates))
+//@ loop 0 invariant cands: forall(0, len(filtered.candidates), func(j int) bool { return exists(0, it_i, func(k int) bool { return jsrRouteHit(old(dispatcher.routes[k]), pathRemainder) && same(filtered.candidates[j], jsrRouteCand(old(dispatcher.routes[k]), pathRemainder)) }) })
+//@ loop 0 invariant complete: forall(0, it_i, func(k int) bool { return jsrRouteHit(old(dispatcher.routes[k]), pathRemainder) ==> exists(0, len(filtered.candidates), func(j int) bool { return same(filtered.candidates[j], jsrRouteCand(old(dispatcher.routes[k]), pathRemainder)) }) })
+//@ loop 1 invariant fresh: filtered != nil && fresh(filtered) && fresh(filtered.candidates) && fresh(matchingRoutes)
+//@ loop 1 invariant index: 1 <= c && c <= len(filtered.candidates) && len(matchingRoutes) == c
+//@ loop 1 invariant copied: forall(0, c, func(k int) bool { return same(matchingRoutes[k], filtered.candidates[k].route) })
+//@ loop 1 invariant cands: forall(0, len(filtered.candidates), func(j int) bool { return exists(0, old(len(dispatcher.routes)), func(k int) bool { return jsrRouteHit(old(dispatcher.routes[k]), pathRemainder) && same(filtered.candidates[j], jsrRouteCand(old(dispatcher.routes[k]), pathRemainder)) }) })
+//@ loop 1 invariant sound: forall(0, len(matchingRoutes), func(j int) bool { return exists(0, old(len(dispatcher.routes)), func(k int) bool { return same(matchingRoutes[j], old(dispatcher.routes[k])) && jsrRouteHit(old(dispatcher.routes[k]), pathRemainder) }) })
+
+// RouterJSR311.SelectRoute: 404 exactly when no root expression matches or no route of the best service
+// matches the remainder; otherwise the detectRoute stage decides among exactly the matching routes of
+// the best-ranked matching service, best-ranked route first (C01 C02 C03 C18, under A-JSR).
+//@ func (RouterJSR311).SelectRoute
+//@ props C01 C02 C03 C14 C18 C19
+//@ requires req: httpRequest != nil && httpRequest.URL != nil
+//@ requires services: forall(0, len(webServices), func(i int) bool { return jsrSvcOK(webServices[i]) && routesLockOf(webServices[i]) >= 0 && jsrRoutesOK(webServices[i]) })
+//@ ensures nomatch: forall(0, len(webServices), func(i int) bool { return !jsrSvcHit(webServices[i], httpRequest.URL.Path) }) ==> err != nil && selectedService == nil && selectedRoute == nil
+//@ ensures service: selectedService != nil ==> exists(0, len(webServices), func(i int) bool { return webServices[i] == selectedService }) && jsrSvcHit(selectedService, httpRequest.URL.Path) && forall(0, len(webServices), func(j int) bool { return jsrSvcHit(webServices[j], httpRequest.URL.Path) ==> !jsrDispLess(jsrDispCand(selectedService, httpRequest.URL.Path), jsrDispCand(webServices[j], httpRequest.URL.Path)) })
+//@ ensures route: err == nil ==> selectedService != nil && selectedRoute != nil && fresh(selectedRoute) && jsrRouteHit(*selectedRoute, jsrFinal(selectedService, httpRequest.URL.Path)) && passes(*selectedRoute, httpRequest, 3) && exists(0, len(selectedService.routes), func(k int) bool { return same(*selectedRoute, selectedService.routes[k]) })
+//@ ensures error: err != nil ==> selectedRoute == nil
+//@ modifies nothing
+//@ nopanic
+//@ opt opaque ctAdmits acceptAdmits noEmptyEntry
